@@ -181,6 +181,12 @@ pub struct ParseStats {
 
 /// Parse a whole cleartext packet payload into frames (RFC 9000 12.4 / 19).
 pub fn parse_frames(payload: &[u8]) -> R<(Vec<Frame>, ParseStats)> {
+    parse_frames_opts(payload, true)
+}
+
+/// `strict = false`: semantic range errors (offset + length beyond 2^62-1) do not stop the parse;
+/// used to look at what an endpoint was sent, e.g. a byzantine frame followed by honest ones
+pub fn parse_frames_opts(payload: &[u8], strict: bool) -> R<(Vec<Frame>, ParseStats)> {
     let mut c = Cur::new(payload);
     let mut out = Vec::new();
     if payload.is_empty() {
@@ -244,7 +250,7 @@ pub fn parse_frames(payload: &[u8]) -> R<(Vec<Frame>, ParseStats)> {
                 let len = c.varint()? as usize;
                 let at = c.p;
                 c.bytes(len)?;
-                if off.checked_add(len as u64).map_or(true, |e| e > VARINT_MAX) {
+                if strict && off.checked_add(len as u64).map_or(true, |e| e > VARINT_MAX) {
                     return err("crypto offset overflow");
                 }
                 Frame::Crypto { off, len, data_at: at }
@@ -266,7 +272,7 @@ pub fn parse_frames(payload: &[u8]) -> R<(Vec<Frame>, ParseStats)> {
                 let len = if has_len { c.varint()? as usize } else { c.rem() };
                 let at = c.p;
                 c.bytes(len)?;
-                if off.checked_add(len as u64).map_or(true, |e| e > VARINT_MAX) {
+                if strict && off.checked_add(len as u64).map_or(true, |e| e > VARINT_MAX) {
                     return err("stream offset overflow");
                 }
                 Frame::Stream { id, off, len, fin, data_at: at, has_len, has_off }
